@@ -104,3 +104,10 @@ fn str_ends_with_lf(s: &str) -> (r: bool)
 fn string_len(s: &String) -> (n: usize)
     ensures n == encode_utf8(s@).len(), n <= isize::MAX,
 { s.len() }
+
+/// `a.saturating_sub(b)`
+#[verifier::external_body]
+fn usize_sub_sat(a: usize, b: usize) -> (r: usize) ensures r == (if a >= b { a - b } else { 0 }), { a.saturating_sub(b) }
+/// `s.as_bytes().get(i) == Some(&b)`
+#[verifier::external_body]
+fn str_byte_is(s: &str, i: usize, b: u8) -> (r: bool) ensures r == (i < s.spec_bytes().len() && s.spec_bytes()[i as int] == b), { s.as_bytes().get(i) == Some(&b) }
